@@ -42,6 +42,7 @@ var (
 	FileType         = reflect.TypeOf(ast.File{})
 	ForStmtType      = reflect.TypeOf(ast.ForStmt{})
 	FuncDeclType     = reflect.TypeOf(ast.FuncDecl{})
+	FuncTypeType     = reflect.TypeOf(ast.FuncType{})
 	GenDeclType      = reflect.TypeOf(ast.GenDecl{})
 	IdentType        = reflect.TypeOf(ast.Ident{})
 	ObjectType       = reflect.TypeOf(ast.Object{})
@@ -55,6 +56,7 @@ var (
 	FilePtrType         = reflect.PtrTo(FileType)
 	ForStmtPtrType      = reflect.PtrTo(ForStmtType)
 	FuncDeclPtrType     = reflect.PtrTo(FuncDeclType)
+	FuncTypePtrType     = reflect.PtrTo(FuncTypeType)
 	GenDeclPtrType      = reflect.PtrTo(GenDeclType)
 	IdentPtrType        = reflect.PtrTo(IdentType)
 	ObjectPtrType       = reflect.PtrTo(ObjectType)
